@@ -41,12 +41,14 @@ Record qrep := {
   r_trim_log : bool;       (* pause() drops the cancelled entries from the log of generated trials *)
   r_complete_reset : bool; (* interleaved / blocked-random: `_complete` recomputed when trials are restored *)
   r_grouped_mod : bool;    (* grouped: cursor taken modulo min(group_size, len(ordering)) *)
-  r_empty_reset : bool     (* requeue clears the empty flag when it restores trials *)
+  r_empty_reset : bool;    (* requeue clears the empty flag when it restores trials *)
+  r_pause_atomic : bool    (* pause(t) checks t against the clock BEFORE cancelling anything: a rejected pause
+                              leaves the queue untouched *)
 }.
 Definition all_rep : qrep := {| r_cancel_once := true; r_trim_log := true; r_complete_reset := true;
-                                r_grouped_mod := true; r_empty_reset := true |}.
+                                r_grouped_mod := true; r_empty_reset := true; r_pause_atomic := true |}.
 Definition no_rep : qrep := {| r_cancel_once := false; r_trim_log := false; r_complete_reset := false;
-                               r_grouped_mod := false; r_empty_reset := false |}.
+                               r_grouped_mod := false; r_empty_reset := false; r_pause_atomic := false |}.
 
 Record qstate := {
   q_pol : policy;
@@ -336,12 +338,15 @@ Fixpoint lastinfo (l : list info) : option info :=
   match l with [] => None | [x] => Some x | _ :: t => lastinfo t end.
 
 (* pause(t): returns the new state, the removed notifications (newest trial first), and whether
-   ValueError was raised (by rewind_samples, after cancel and requeue already ran) *)
+   ValueError was raised.  Repaired code (r_pause_atomic): a time after the clock is rejected first, the
+   queue is untouched.  Before the repair the error came out of rewind_samples, after cancel and requeue
+   had already run. *)
 Definition pause (R : qrep) (q : qstate) (t : option Z) : qstate * list event * bool :=
   match t with
   | None => (set_pause q (q_data q) (q_ordering q) (q_source q) (q_delay q) (q_samples q) true
                        (q_empty q) (q_generated q) (q_complete q), [], false)
   | Some t =>
+    if r_pause_atomic R && (t >? q_samples q) then (q, [], true) else
     let newest_first := rev (q_generated q) in
     let cancelled := filter (fun i => ends_after i t) newest_first in
     let evs := map (fun i => ERemoved (i_key i) (i_t0 i)) cancelled in
@@ -526,8 +531,9 @@ Fixpoint run_qx (R : qrep) (q : qstate) (ops : list xop) : list Z :=
     end
   | XPause tm :: t =>
     let '(q', ev, err) := pause R q tm in
-    (* a rejected pause (ValueError out of rewind_samples) does not end the history: cancel, requeue and
-       the trimming of the log have happened, the clock stays, the queue is paused; the caller goes on *)
+    (* a rejected pause (ValueError) does not end the history: the caller goes on.  Repaired code: the queue
+       is untouched; before the repair cancel, requeue and the trimming of the log had happened, the clock
+       stayed and the queue was paused *)
     [(if err then 4 else 3); 0; zlen ev] ++ flat_map (enc_event_x q') ev ++ enc_status_x q' ++ run_qx R q' t
   | XResume tm :: t =>
     let q' := resume q tm in
